@@ -116,3 +116,14 @@ package json
 //@ func json.Parse$1
 //@   requires p != nil
 //@   assigns p.currPath
+
+// parseComplete(raw): raw is one complete JSON value (surrounded by optional white space).
+// It is defined as the completeness output of Parse; what completeness implies is stated by
+// the C09 clauses of the scanner functions.
+//@ ghostfun parseComplete(bytes) bool
+
+//@ func json.Parse
+//@   ensures 0 <= parsed && parsed <= len(raw)
+//@   ensures [C08C09_J2] 0 <= inspected && inspected <= len(raw)
+//@   ensures [C08_J1] parsed > 0 ==> inspected == parsed
+//@   defines (parsed == len(raw) && len(raw) > 0) == parseComplete(raw)
